@@ -192,13 +192,13 @@ func init() {
 		base: base{id: "C04", level: "exploration",
 			rule:        "seeded random interleavings of WriteByte/Write/WriteMatch/WriteBlock(valid, offsets resolved against the model incl. the maximal valid offset and overlapping copies)/Read/WriteTo/Flush/Reset/re-Init on DecoderBuffer (public fields inspected after every step) and Decoder (recording writer), for all (WindowSize, BufferSize) with 1 <= W < B <= 40 plus larger ones; non-trivial iff the history wrote a match and handed out bytes; distinct = distinct concrete case",
 			assumptions: []string{"when DecoderBuffer may answer ErrFullBuffer is not asserted (capacity is soft), only that a refused operation changed nothing; acceptance duties belong to C07"},
-			mandatory:   []string{"matches_written", "overlapping_matches", "offset==WindowSize", "bytes_read", "valid_blocks_with_sequences", "steps_with_shrink", "resets", "reinits", "flushes_verified"},
+			mandatory:   []string{"matches_written", "overlapping_matches", "offset==WindowSize", "bytes_read", "valid_blocks_with_sequences", "steps_with_shrink", "resets", "reinits", "flushes_verified", "writeto_with_failing_writer", "calls_with_writer_fault"},
 			expected:    []string{"reinit_raised_buffersize", "buffer_refused_full"}},
 		owned: owned("read-bytes", "append-wrong", "window-lost", "struct-invariant", "valid-offset-rejected", "unexpected-error", "flush-incomplete", "writer-prefix", "panic", "oversized-accepted"),
 		kinds: func(tier string) []core.Segment {
 			m := tierScale(tier, 60)
 			return []core.Segment{{Kind: "corpus:buffer", N: 1640}, {Kind: "buffer", N: 12000 * m}, {Kind: "corpus:decoder", N: 820}, {Kind: "decoder", N: 8000 * m},
-				{Kind: "big:buffer", N: 42 * m, Chunk: 3}, {Kind: "big:decoder", N: 42 * m, Chunk: 3}}
+				{Kind: "big:buffer", N: 42 * m, Chunk: 3}, {Kind: "big:decoder", N: 42 * m, Chunk: 3}, {Kind: "faulty:decoder", N: 5000 * m}}
 		},
 		genC: func(r *rand.Rand, kind string, idx int64, tier string) DCase {
 			class, sut := splitKind(kind)
@@ -210,6 +210,15 @@ func init() {
 			ops := GenDOps(r, g)
 			if sut == "decoder" {
 				fitLiterals(ops, b-w)
+			}
+			if class == "faulty" {
+				// the writer fails or writes short at some of its calls; the
+				// caller retries as the API prescribes: still every byte once
+				dc := DCase{WS: w, BS: b, SUT: sut, Ops: ops, Fault: map[int]WStep{}}
+				for i, nf := 0, 1+r.Intn(6); i < nf; i++ {
+					dc.Fault[r.Intn(60)] = genWStep(r)
+				}
+				return dc
 			}
 			return DCase{WS: w, BS: b, SUT: sut, Ops: ops}
 		},
@@ -250,21 +259,47 @@ func init() {
 		base: base{id: "C17", level: "exploration",
 			rule:        "decoder histories weighted towards a full buffer with already-read bytes so that a WriteBlock/Write/WriteMatch call both discards old data and appends; the reported n, k, l and DecoderBuffer.Off are compared with the model after every step, also for calls that stop early with an error after partial progress; non-trivial iff a block call discarded and appended or stopped early after progress; distinct = distinct concrete case",
 			assumptions: []string{"the model appends what the reported (k,l) denote; n and Off are compared with it"},
-			mandatory:   []string{"block_calls_that_discarded_and_appended", "block_stopped_early_after_progress", "valid_blocks_with_sequences", "steps_with_shrink"}},
+			mandatory:   []string{"block_calls_that_discarded_and_appended", "block_stopped_early_after_progress", "valid_blocks_with_sequences", "steps_with_shrink", "counts_verified_after_writer_fault"}},
 		owned: owned("count-n", "count-k-l", "off", "oversized-accepted"),
 		kinds: func(tier string) []core.Segment {
 			m := tierScale(tier, 60)
 			return []core.Segment{{Kind: "corpus:buffer", N: 1640}, {Kind: "buffer", N: 14000 * m}, {Kind: "corpus:decoder", N: 820}, {Kind: "decoder", N: 6000 * m},
-				{Kind: "big:buffer", N: 42 * m, Chunk: 3}, {Kind: "big:decoder", N: 28 * m, Chunk: 3}}
+				{Kind: "big:buffer", N: 42 * m, Chunk: 3}, {Kind: "big:decoder", N: 28 * m, Chunk: 3},
+				{Kind: "faulty:decoder", N: 8000 * m}, {Kind: "bigfaulty:decoder", N: 28 * m, Chunk: 3}}
 		},
 		genC: func(r *rand.Rand, kind string, idx int64, tier string) DCase {
 			class, sut := splitKind(kind)
 			if class == "big" {
 				return bigDCase(r, sut, idx, 0)
 			}
+			if class == "bigfaulty" {
+				dc := bigDCase(r, sut, idx, 0)
+				dc.Fault = map[int]WStep{}
+				for i, nf := 0, 1+r.Intn(6); i < nf; i++ {
+					dc.Fault[r.Intn(30)] = genWStep(r)
+				}
+				return dc
+			}
 			w, b := geometry(r, idx)
+			if class == "faulty" && b > 24 {
+				// small buffers: the writer is called often
+				b = 2 + r.Intn(23)
+				w = 1 + r.Intn(b-1)
+			}
 			g := &DGen{SUT: sut, W: w, B: b, N: 30 + r.Intn(40), MaxItem: 2 + r.Intn(b), NoReset: r.Intn(3) > 0, BigItems: r.Intn(3) == 0, Hostile: 8}
+			if class == "faulty" {
+				g.N = 10 + r.Intn(30)
+				g.BigItems = r.Intn(2) == 0
+			}
 			ops := GenDOps(r, g)
+			if class == "faulty" {
+				fitLiterals(ops, b-w)
+				dc := DCase{WS: w, BS: b, SUT: sut, Ops: ops, Fault: map[int]WStep{}}
+				for i, nf := 0, 1+r.Intn(8); i < nf; i++ {
+					dc.Fault[r.Intn(80)] = genWStep(r)
+				}
+				return dc
+			}
 			if sut == "buffer" {
 				// fill up and read before block operations
 				var out []DOp
@@ -336,8 +371,17 @@ func init() {
 				if r.Intn(2) == 0 {
 					n = 400 // fails always
 				}
+				// a writer that fails always is sticky in half of the cases:
+				// the same error, nothing accepted (bufio.Writer after its
+				// device failed)
+				sticky, ws := n > 1 && r.Intn(2) == 0, genWStep(r)
+				ws.Acc = 0
 				for i := 0; i < n; i++ {
-					dc.Fault[start+i] = WStep{Acc: r.Intn(5), Fail: true}
+					if sticky {
+						dc.Fault[start+i] = ws
+					} else {
+						dc.Fault[start+i] = genWStep(r)
+					}
 				}
 			}
 			return dc
@@ -346,6 +390,13 @@ func init() {
 			return grew(st, before, "decoder_writes_larger_than_free_space") || grew(st, before, "valid_blocks")
 		},
 	})
+}
+
+// genWStep draws a fault step: bytes accepted and the error value (the
+// harness' own error, io.ErrShortWrite as bufio.Writer reports it, other
+// standard errors).
+func genWStep(r *rand.Rand) WStep {
+	return WStep{Acc: r.Intn(5), Fail: true, E: []int{0, 0, 0, 0, 1, 1, 1, 2, 3, 1}[r.Intn(10)]}
 }
 
 // bigDCase generates a short history on a big geometry: items sized around
@@ -416,7 +467,7 @@ func (p *c18prop) Gen(kind string, idx int64, seed int64, tier string) core.Case
 	if k == "random" {
 		dc.Fault = map[int]WStep{}
 		for i, nf := 0, 1+r.Intn(5); i < nf; i++ {
-			dc.Fault[r.Intn(60)] = WStep{Acc: r.Intn(5), Fail: true}
+			dc.Fault[r.Intn(60)] = genWStep(r)
 		}
 	}
 	return core.MkCase(p.id, kind, idx, seed, tier, dc)
@@ -459,9 +510,9 @@ func (p *c18prop) Run(c *core.Case, st *core.Stats) []core.Violation {
 		st.Inc("fault_free_runs")
 		r := core.Rand(c.Seed, "C18", "bigfaults", c.Idx)
 		for t := 0; t < 12 && n > 0; t++ {
-			fault := map[int]WStep{r.Intn(n): {Acc: r.Intn(5), Fail: true}}
+			fault := map[int]WStep{r.Intn(n): genWStep(r)}
 			if r.Intn(3) == 0 {
-				fault[r.Intn(n+1)] = WStep{Acc: r.Intn(5), Fail: true}
+				fault[r.Intn(n+1)] = genWStep(r)
 			}
 			st.Inc("fault_plans")
 			st.Inc("big_geometry_fault_plans")
@@ -479,9 +530,11 @@ func (p *c18prop) Run(c *core.Case, st *core.Stats) []core.Violation {
 	if n > 40 {
 		n = 40
 	}
+	// the error value of the enumerated faults is fixed per stream
+	ek := []int{0, 1, 0, 2, 1, 3}[int(c.Idx)%6]
 	for i := 0; i < n; i++ {
 		for acc := 0; acc <= 4; acc++ {
-			fault := map[int]WStep{i: {Acc: acc, Fail: true}}
+			fault := map[int]WStep{i: {Acc: acc, Fail: true, E: ek}}
 			st.Inc("fault_plans")
 			st.Inc("single_fault_placements")
 			if f, _ := run(fault); f != nil {
@@ -493,7 +546,7 @@ func (p *c18prop) Run(c *core.Case, st *core.Stats) []core.Violation {
 		for i := 0; i < n; i++ {
 			for j := i + 1; j < n+2; j++ {
 				for _, acc := range [][2]int{{0, 0}, {3, 1}, {2, 4}, {1, 3}} {
-					fault := map[int]WStep{i: {Acc: acc[0], Fail: true}, j: {Acc: acc[1], Fail: true}}
+					fault := map[int]WStep{i: {Acc: acc[0], Fail: true, E: ek}, j: {Acc: acc[1], Fail: true, E: (ek + 1) % 4}}
 					st.Inc("fault_plans")
 					st.Inc("double_fault_placements")
 					if f, _ := run(fault); f != nil {
